@@ -413,6 +413,9 @@ class Engine:
             return z3.BoolVal(len(ty.elems) > 0)
         if ty is EXC or isinstance(ty, (TEnum, TObj, TPy)) or ty is CLSV:
             return z3.BoolVal(True)
+        if isinstance(ty, TSet):
+            x = z3.Const(fresh_name('mem'), ty.elem.sort())
+            return z3.Exists([x], z3.Select(v.t, x))
         if isinstance(ty, TMap):
             raise Unsupported('truthiness of a dict')
         raise Unsupported(f'truthiness of {ty}')
